@@ -46,3 +46,10 @@ struct Verdict {
 Verdict evaluate(const Sig &s);
 bool metaPaddingOk(const Bytes &content, std::string *why = nullptr);
 }
+namespace ref {
+// reference decoding of a serialized signature into the model (unknown elements are ignored; chains are ordered by
+// decreasing chain-index length, which is how the format defines their sequence)
+bool decodeSig(const Bytes &enc, Sig &out, std::string &err);
+bool decodeAggChain(const Tlv &t, AggChain &c, std::string &err);
+bool decodeCalChain(const Tlv &t, CalChain &c, std::string &err);
+}
